@@ -132,11 +132,13 @@ def s2(ctx, rep):
     first = ctx.nodes(mb, ctx.sel_call(selfcall="_get_config_not_modelbased"), "must", 0)
     model = ctx.nodes(mb, ctx.sel_call(selfcall="_get_config_modelbased"), "may", 0)
     ok = bool(first) and bool(model) and all(cm.path(cm.entry, x, deleted=first) is None for x in model) and \
-        all(ctx.has_fact(mb, x, lambda a: a == ("truth", "pick_random", False)) for x in model)
+        all(ctx.has_fact(mb, x, lambda a: a == ("truth", var_from_call(mb, "_get_config_not_modelbased", 1), False)) for x in model)
     h = P.method("ModelBasedSearcher", "_get_config_not_modelbased")
-    pr = [n for n in cfg_of(h).nodes if n.kind == "stmt" and isinstance(n.ast, ast.Assign) and U(n.ast.targets[0]) == "pick_random"
+    hr = [r.value for r in returns_of(h) if isinstance(r.value, ast.Tuple) and len(r.value.elts) == 2]
+    cfgv, prv = (U(hr[0].elts[0]), U(hr[0].elts[1])) if hr else ("?", "?")
+    pr = [n for n in cfg_of(h).nodes if n.kind == "stmt" and isinstance(n.ast, ast.Assign) and U(n.ast.targets[0]) == prv
           and isinstance(n.ast.value, ast.Constant) and n.ast.value.value is True]
-    ok = ok and len(pr) == 1 and ctx.has_fact(h, pr[0].id, lambda a: a[0] == "is" and a[1] == "config" and a[3] is False)
+    ok = ok and len(pr) == 1 and ctx.has_fact(h, pr[0].id, lambda a: a[0] == "is" and a[1] == cfgv and a[3] is False)
     rep.put(ok, "S2", "guarded_by", "ModelBasedSearcher.get_config: the surrogate model is consulted only after the initial queue is empty", mb, None, "",
             "a model-based suggestion can be made although initial configurations remain")
     g = P.method("BaseSearcher", "_next_initial_config")
@@ -271,12 +273,11 @@ def _edge_assume(conds):
 def s5(ctx, rep):
     P = ctx.P
     f = P.method("TuningJobState", "all_configurations")
-    src = U(f.node)
+    from ..engine import flows_into
     need = ["self.pending_evaluations", "self.failed_trials", "self.trials_evaluations"]
-    ok = all(n in src for n in need)
     # all three flow into the returned list
     rets = returns_of(f)
-    ok = ok and len(rets) == 1 and "_elist" in U(rets[0].value)
+    ok = len(rets) == 1 and all(flows_into(f, rets[0].value, lambda y, n=n: isinstance(y, ast.Attribute) and U(y) == n) for n in need)
     rep.put(ok, "S5", "agreement", "TuningJobState.all_configurations unions pending, failed and observed trials", f, None, str(need),
             "one of pending / failed / observed configurations is not excluded from new suggestions")
 
